@@ -47,6 +47,8 @@ SerBad(r) ==
         \/ (c = "denotes" /\ ref.ok /\ d.s.m = "end" /\ ~ValMatches(d.root, r.model))
         \/ (c = "agree" /\ ref.ok /\ \E w \in DOMAIN r.outs : ~r.outs[w].ok \/ r.outs[w].b # ref.b)
         \/ (c = "pretty" /\ ref.ok /\ d.s.m = "end" /\ \E w \in DOMAIN r.pretty : ~r.pretty[w].ok \/ r.pretty[w].b # PrettyText(d.root, 0))
+        \* PrettyFormatter::with_indent(unit): the same layout with that unit
+        \/ (c = "pretty" /\ ref.ok /\ d.s.m = "end" /\ \E i \in 1..Len(r.pretty_ind) : ~r.pretty_ind[i].out.ok \/ r.pretty_ind[i].out.b # PrettyTextI(d.root, 0, r.pretty_ind[i].ind))
         \* a writer that fails after n bytes: the error is returned and what reached the sink is a prefix of the output
         \/ (c = "fail" /\ ref.ok /\ \E i \in 1..Len(r.fails) :
                LET f == r.fails[i] IN
